@@ -27,4 +27,8 @@ def run(ctx):
     ctx.rule("R-NORMAL-ANNOUNCED", "entering NORMAL keeps announced == held (the losing branch claims announced + 1)", floor=2)
     ca.normal_announced(ctx)
     ca.claim_only(ctx)
+    from rules import generic as GN
+    ctx.rule("R-LOCAL-DEFINED", "no path of a ControllerApplication function reads a local before assigning it (the claim timer callback runs in the job thread)", floor=15)
+    GN.local_defined(ctx, [f for f in ctx.prog.funcs.values() if f.cls is not None and f.cls.name == "ControllerApplication"],
+                     why=" - raised in the claim timer callback it ends the job thread: the claim is never completed / defended")
     return "J1939-81 decision table, comparison direction, broadcast and veto-timer shape of the claim procedure"
